@@ -95,6 +95,28 @@ pub proof fn lemma_cycle(m: Map<Key, Key>, k: Key, n: nat, j: nat, t: nat)
     }
 }
 
+// the chain exits at n: that locale is the resolved one
+pub proof fn lemma_exit_resolved(m: Map<Key, Key>, d: Key, k: Key, n: nat)
+    requires exits_at(m, k, n),
+    ensures resolved(m, d, k) == walk(m, k, n),
+{
+    let c = choose|c: nat| exits_at(m, k, c);
+    lemma_exit_unique(m, k, n, c);
+}
+
+// every locale up to step n is in dom(m): if step n+1 lands on one of them the chain loops for ever
+// and the default locale is the resolved one
+pub proof fn lemma_step(m: Map<Key, Key>, d: Key, k: Key, n: nat)
+    requires forall|i: nat| i <= n ==> m.contains_key(#[trigger] walk(m, k, i)),
+    ensures forall|j: nat| j <= n && walk(m, k, n + 1) == #[trigger] walk(m, k, j) ==> resolved(m, d, k) == d,
+{
+    assert forall|j: nat| j <= n && walk(m, k, n + 1) == #[trigger] walk(m, k, j) implies resolved(m, d, k) == d by {
+        assert forall|t: nat| !exits_at(m, k, t) by {
+            lemma_cycle(m, k, n, j, t);
+        }
+    }
+}
+
 // a duplicate-free listing of at least the keys of m, of length |dom m|, lists exactly dom m
 pub proof fn lemma_seq_exact<K>(s: Seq<K>, d: Set<K>)
     requires s.no_duplicates(), s.len() == d.len(),
